@@ -181,6 +181,8 @@ def store_property(prop, tier, seed, histories, level_note, replay=None, snap=Fa
             samples.append({'origin': origin, 'ops': ops_to_js(ops)[:6], 'first_output_lines': r['g'][:6]})
         if r['spec']:
             def fails(c):
+                if not ro_consistent(c):
+                    return False
                 rr = run_history(c, path, prop, snap=snap, model=False)
                 return rr['spec'] is not None and rr['spec']['kind'] == r['spec']['kind']
             small = shrink(ops, fails) if len(ops) > 3 else ops
@@ -192,6 +194,8 @@ def store_property(prop, tier, seed, histories, level_note, replay=None, snap=Fa
                 nviol += 1
         elif r['diff'] and corr is None:
             def fails2(c):
+                if not ro_consistent(c):
+                    return False
                 rr = run_history(c, path, prop, snap=False)
                 return rr['diff'] is not None
             small = shrink(ops, fails2, budget=40) if len(ops) > 3 else ops
